@@ -4,6 +4,7 @@
 -/
 import Corerad.Spec.C09
 import Corerad.Model.Advertiser
+import Corerad.Gen.Dialer
 
 namespace Corerad.Props.C09
 
@@ -14,6 +15,18 @@ open Corerad Corerad.Model
 theorem gen_constants :
     Gen.Listener.retries = 5 ∧ Gen.Listener.backoffUnit = 50 * ms ∧
     Gen.Listener.invalidConsumesAttempt = false := by decide
+
+/-- The socket the listener reads from is set up as the validation assumes (calls of `dialNDP` in
+    source order, regenerated): link-local listener, an ICMPv6 filter that blocks everything but
+    router solicitations and router advertisements, the hop limit delivered with every message
+    (the 255 test reads it), membership of the all-routers group (solicitations are sent there).
+    The kernel's behaviour behind these calls is outside the model. -/
+theorem gen_socket_setup :
+    Gen.Dialer.dialNDPCalls =
+      ["ndp.Listen(ifi, ndp.LinkLocal)", "f.SetAll(true)", "f.Accept(ipv6.ICMPTypeRouterSolicitation)",
+       "f.Accept(ipv6.ICMPTypeRouterAdvertisement)", "c.SetICMPFilter(&f)",
+       "c.SetControlMessage(ipv6.FlagHopLimit, true)", "c.JoinGroup(netip.IPv6LinkLocalAllRouters())"] := by
+  decide
 
 /-- generalised over the attempt counter: on a script of messages the listener delivers the
     valid ones in order, counts the invalid ones, requests no back-off and keeps running -/
